@@ -757,12 +757,21 @@ fn step_loose(cfg: &WorldCfg, s: &Script, e: &Ev) -> Script {
 // ------------------------------------------------------------------ no-settle mode
 
 /// The same history with its events fired back to back, without waiting for quiescence: the
-/// kernel and tokio pick the interleaving. Only schedule-independent safety invariants are
-/// evaluated (at the end): a started handler ends at most one way and - once every gate is open,
-/// every client gone and shutdown has finished - exactly one way; Detached never drops;
-/// close() does not return before the last started handler ended; responses read carry their
-/// own id. These runs are never called exhaustive.
-pub fn run_history_nosettle(cfg: &WorldCfg, events: &[Ev]) -> Outcome {
+/// kernel and tokio pick the interleaving (`gap` = a fixed pause before each event: with none most
+/// requests never reach their handler before the client is gone; with a few milliseconds they
+/// usually do, still without any confirmation). Only schedule-independent safety invariants are
+/// evaluated: the board is copied the moment close() returns and the moment each
+/// wait_for_shutdown() waiter is released - no started handler may still be running in those
+/// copies and nothing may happen on the board after close() returned; at the end (clients
+/// dropped, shutdown requested with the gates still closed, then every gate opened) a started
+/// handler has ended exactly one way, Detached never drops, responses read carry their own id.
+/// These runs are never called exhaustive.
+fn close_snap(srv: &mut LiveServer<Arc<World>>, world: &Arc<World>) -> std::sync::mpsc::Receiver<(Result<(), String>, Vec<(String, String)>)> {
+    let w = world.clone();
+    srv.close_async_snap(move || w.board.snapshot())
+}
+
+pub fn run_history_nosettle(cfg: &WorldCfg, events: &[Ev], gap: Duration) -> Outcome {
     let mut out = Outcome { failures: vec![], trace: vec![], degraded_sync: 0, machinery: None };
     let world = World::new();
     let mut srv = match LiveServer::start(api(), world.clone(), ServerOpts { mode: cfg.mode, rt: cfg.rt, ..Default::default() }) {
@@ -780,12 +789,16 @@ pub fn run_history_nosettle(cfg: &WorldCfg, events: &[Ev]) -> Outcome {
     let mut sent = vec![false; n];
     let mut half = vec![false; n];
     let mut close_rx = None;
+    let mut waiters = vec![];
     macro_rules! fail {
         ($kind:expr, $exp:expr, $obs:expr) => {
             out.failures.push(Failure { kind: $kind.to_string(), step: 0, expected: $exp, observed: $obs })
         };
     }
     for ev in events {
+        if !gap.is_zero() {
+            std::thread::sleep(gap);
+        }
         match *ev {
             Ev::Connect(i) => conns[i] = Conn::connect(addr).ok(),
             Ev::SendHalf(i) => {
@@ -829,29 +842,65 @@ pub fn run_history_nosettle(cfg: &WorldCfg, events: &[Ev]) -> Outcome {
             }
             Ev::Shutdown => {
                 if close_rx.is_none() {
-                    close_rx = Some(srv.close_async());
+                    close_rx = Some(close_snap(&mut srv, &world));
                 }
             }
-            Ev::Waiter => {}
+            Ev::Waiter => {
+                if close_rx.is_none() {
+                    let w = world.clone();
+                    waiters.push(srv.waiter_snap(move || w.board.snapshot()));
+                }
+            }
         }
     }
-    // open every gate, drop every client, shut down
+    // drop every client and ask for shutdown while the gates are still closed: as long as a started
+    // handler has not ended, close() must not return (whatever the schedule was); then open every gate
+    for c in conns.iter_mut() {
+        *c = None;
+    }
+    let rx = match close_rx {
+        Some(rx) => rx,
+        None => close_snap(&mut srv, &world),
+    };
+    let running = |snap: &[(String, String)]| -> Vec<String> {
+        ids.iter()
+            .filter(|id| snap.iter().any(|(k, x)| k == "entered" && x == *id) && !snap.iter().any(|(k, x)| (k == "completed" || k == "dropped") && x == *id))
+            .cloned()
+            .collect()
+    };
+    std::thread::sleep(Duration::from_millis(20));
+    if !running(&world.board.snapshot()).is_empty() {
+        // give a close() that wrongly ignores the running handler the time to return
+        std::thread::sleep(Duration::from_millis(80));
+    }
     for id in &ids {
         world.release(id);
         world.release(id);
     }
-    for c in conns.iter_mut() {
-        *c = None;
-    }
-    let rx = close_rx.unwrap_or_else(|| srv.close_async());
     match rx.recv_timeout(POS) {
         Err(_) => fail!("shutdown_did_not_finish", json!("close() returns once every client left and every gate opened"), json!("still pending after 10 s")),
-        Ok(_) => {
-            let at_close = world.board.snapshot();
+        Ok((_, at_close)) => {
+            // the board as it was the moment close() returned (taken in the closing task)
+            let still = running(&at_close);
+            if !still.is_empty() {
+                fail!("shutdown_finished_while_handler_running", json!("every started handler has ended when close() returns"), json!({"running": still, "board_when_close_returned": at_close}));
+            }
             std::thread::sleep(Duration::from_millis(50));
             let later = world.board.snapshot();
             if later.len() != at_close.len() {
-                fail!("handler_progress_after_shutdown_finished", json!("no handler event after close() returned"), json!({"events_after": later[at_close.len()..].to_vec()}));
+                fail!("handler_progress_after_shutdown_finished", json!("no handler event after close() returned"), json!({"events_after": later[at_close.len().min(later.len())..].to_vec()}));
+            }
+            // wait_for_shutdown() waiters: released, and not while a started handler was still running
+            for (wi, w) in waiters.iter().enumerate() {
+                match w.recv_timeout(POS) {
+                    Err(_) => fail!("waiter_not_released", json!("every waiter released after shutdown finished"), json!({"waiter": wi})),
+                    Ok((_, at_release)) => {
+                        let still = running(&at_release);
+                        if !still.is_empty() {
+                            fail!("waiter_released_while_handler_running", json!("every started handler has ended when a waiter is released"), json!({"waiter": wi, "running": still, "board_when_released": at_release}));
+                        }
+                    }
+                }
             }
             let count = |k: &str, id: &str| later.iter().filter(|(kk, i)| kk == k && i == id).count();
             for (i, id) in ids.iter().enumerate() {
@@ -866,7 +915,7 @@ pub fn run_history_nosettle(cfg: &WorldCfg, events: &[Ev]) -> Outcome {
                     fail!("detached_handler_dropped", json!("never"), json!({"id": id, "dropped": dr}));
                 }
                 if en == 1 && co + dr != 1 {
-                    fail!("handler_still_running_after_shutdown_finished", json!("every started handler has ended when close() returns"), json!({"id": id, "completed": co, "dropped": dr}));
+                    fail!("handler_never_ended", json!("once every gate is open, every client gone and shutdown has finished, a started handler has ended"), json!({"id": id, "completed": co, "dropped": dr}));
                 }
             }
         }
